@@ -269,7 +269,7 @@ def arith_cases(r, n) -> Cases:
                 def run_dt(op=op, ts=ts, td=td):
                     A = Datetime.parse(ts, F)
                     res = A + td if op == "add" else A - td
-                    return "ok:" + res.value.strftime(F)
+                    return "ok:" + corr_fmt.value_text("datetime", res.value)   # not strftime: the C library prints years below 1000 unpadded
                 cs.add("arith.datetime.delta", [ts, corr_fmt.wopt(F), op, str(us(td))], run_dt)
             cs.add("arith.datetime.obj", [ts, corr_fmt.wopt(F), us_, corr_fmt.wopt(F)], lambda ts=ts, us_=us_: "ok:" + str(us(Datetime.parse(ts, F) - Datetime.parse(us_, F))))
         x, y, z = (r.randrange(500) for _ in range(3))
